@@ -508,6 +508,8 @@ def std_trait(engine, st, ty, tyb, tb, method, args, dest_ty, trait=None):
                 # `impl PartialOrd<&B> for &A` forwards to the impl of the referents
                 a0, a1 = a0.load(), a1.load()
             o = engine.exec_fn(st, fns[0], [a0, a1])
+            if isinstance(o, EnumV) and o.variant() == 0:
+                return BV(False)            # partial_cmp == None: every comparison operator answers false
             if isinstance(o, EnumV) and o.payload.get(1):
                 d = o.payload[1][0].discr
                 some = o.discr == 1
